@@ -36,6 +36,13 @@ def check(tier):
         if key not in seen:
             seen.add(key); uniq.append(l)
     lits = uniq
+    # the same values written as f-strings without interpolations (`{` and `}` are written twice there): every literal that
+    # contains a brace, and a sample of the others
+    rnd0 = random.Random(seed() + 5)
+    fl = [l for l in lits if not l["raw"] and any(p["k"] == "raw" and p["c"] in (123, 125) for p in l["pieces"])]
+    others = [l for l in lits if not l["raw"] and l not in fl]
+    fl = fl + rnd0.sample(others, min(len(others), 300 if tier == "quick" else 3000))
+    lits = lits + [dict(l, f=True) for l in fl]
     per = 3000
     shards = [lits[i:i + per] for i in range(0, len(lits), per)]
     def run(i):
